@@ -15,7 +15,7 @@ RULE = ("seqs_to_regex / seqs_to_consensus / seqlogos on every list of 1..3 equa
         "heat-map matrix vs alpha (below) / beta (above) distances in dendrogram order; non-trivial = data with at least two distinct values")
 ASSUMPTIONS = ["pixels are never inspected, only artist data", "pyplot's figure registry is environment: plt.close('all') after every call",
                "align=True paths need the external mafft-linsi binary (absent) and are outside the quantifier"]
-REQUIRED_CLASSES = {"all": ["gapped-column", "regex-language-checked", "nan-in-counts", "rare-label-black", "every-shuffle-permutation", "repeated-point", "clustermap-paired", "clustermap-single-chain", "shifted-index", "chain-boundary-shift-rows"]}
+REQUIRED_CLASSES = {"all": ["gapped-column", "regex-language-checked", "nan-in-counts", "rare-label-black", "every-shuffle-permutation", "repeated-point", "clustermap-paired", "clustermap-single-chain", "shifted-index", "chain-boundary-shift-rows", "zero-in-counts", "non-integer-coordinates"]}
 MIN_OUTCOMES = 10
 SINGLE_THREAD_RAPIDFUZZ = True
 CD = ("CA", "CS", "AS")
@@ -45,7 +45,7 @@ def spaces(tier):
                 yield ("logo", lst)
 
     def gen_rank():
-        vals = (1, 2, 3, None)
+        vals = (0, 1, 2, 3, None)
         for n in range(1, 5):
             for v in itertools.product(vals, repeat=n):
                 yield ("rank", v)
@@ -79,9 +79,9 @@ def spaces(tier):
     return [
         Space("regex-consensus-all-lists", gen_regex, "lists of 1..3 sequences of equal length 1..3 over {C,A,S,-}, every column holding a residue (quick: without 3x3)", shards=64),
         Space("seqlogos-count-matrix", gen_logo, "lists of 1..3 sequences of length 1..2 over {C,A} (thorough: + pairs of length 3)"),
-        Space("rankfrequency", gen_rank, "vectors of 1..4 values from {1,2,3,NaN} x normalize_x x normalize_y x scale in {1,2}"),
+        Space("rankfrequency", gen_rank, "vectors of 1..4 values from {0,1,2,3,NaN} x normalize_x x normalize_y x scale in {1,2}"),
         Space("label-colours-rng-seam", gen_colors, "label vectors of length 1..4(5) over 3 labels (strings and ints) x min_count in {None,1,2,3} x hls/tableau x every shuffle permutation"),
-        Space("density_scatter-discrete", gen_scatter, "point sequences of 1..4 points on a 2x2 grid x sort in {True, False}"),
+        Space("density_scatter-discrete", gen_scatter, "point sequences of 1..4 points on three 4-point grids (integer, half-integer, negative) x sort in {True, False}"),
         Space("similarity_clustermap", gen_cmap, "tables of 3..4(5) rows over 3x3 CDR3 pairs (fixed-stride thinning) x {paired, alpha only, beta only} x index {default, shifted} x metadata column", shards=48),
     ]
 
@@ -199,6 +199,8 @@ def _rank(acc, case):
     vals = [float("nan") if v is None else float(v) for v in case[1]]
     if any(v != v for v in vals):
         acc.cls("nan-in-counts")
+    if any(v == 0 for v in vals):
+        acc.cls("zero-in-counts")
     clean = sorted((v for v in vals if v == v), reverse=True)
     n = len(clean)
     for nx in (True, False):
@@ -220,7 +222,7 @@ def _rank(acc, case):
                         plt.close(fig)
                         return
                     tot = sum(clean)
-                    ex = [(v / tot if nx else v) * sc for v in clean]
+                    ex = [((v / tot if tot else float("nan")) if nx else v) * sc for v in clean]
                     ey = [(i / n if ny else i) * sc for i in range(n)]
                     if len(x) != n or len(y) != n or not all(feq(a, b) for a, b in zip(x, ex)) or not all(feq(a, b) for a, b in zip(y, ey)):
                         acc.fail(key + "/line-data", ("rank", case[1]), {"x": ex, "y": ey}, {"x": x, "y": y}, note="normalize_x=%s normalize_y=%s scale=%s" % (nx, ny, sc))
@@ -288,9 +290,21 @@ def _scatter(acc, case):
     import numpy as np
     import matplotlib.pyplot as plt
     import pyrepseq.plotting as P
-    pts = [((0, 0), (0, 1), (1, 0), (1, 1))[i] for i in case[1]]
+    grids = {"int": ((0, 0), (0, 1), (1, 0), (1, 1)), "half": ((0.0, 0.5), (0.0, 1.5), (0.5, 0.5), (1.5, 2.5)), "neg": ((-1, 0), (-1, -2), (3, 0), (0, -1))}
+    for gname, grid in grids.items():
+        if not _scatter_grid(acc, case, [grid[i] for i in case[1]], gname):
+            return
+
+
+def _scatter_grid(acc, case, pts, gname):
+    import numpy as np
+    import matplotlib.pyplot as plt
+    import pyrepseq.plotting as P
+    if gname == "half":
+        acc.cls("non-integer-coordinates")
     exp = {}
     for p in pts:
+        p = (float(p[0]), float(p[1]))
         exp[p] = exp.get(p, 0) + 1
     if len(exp) < len(pts):
         acc.cls("repeated-point")
@@ -300,16 +314,16 @@ def _scatter(acc, case):
         if raised(r):
             acc.fail("density_scatter/raised-" + r.type, case, "axes", r)
             plt.close(fig)
-            return
+            return False
         coll = [c for c in ax.collections]
         try:
             sc = coll[-1]
-            offs = [tuple(int(v) for v in o) for o in np.asarray(sc.get_offsets())]
+            offs = [tuple(float(v) for v in o) for o in np.asarray(sc.get_offsets())]
             arr = [int(v) for v in np.asarray(sc.get_array())]
         except Exception as e:
             acc.fail("density_scatter/malformed", case, "one scatter collection", repr(coll))
             plt.close(fig)
-            return
+            return False
         got = {}
         dup = False
         for o, a in zip(offs, arr):
@@ -319,13 +333,14 @@ def _scatter(acc, case):
         if dup or got != exp or len(offs) != len(exp) or len(coll) != 1:
             acc.fail("density_scatter/points-or-multiplicities", case, {str(k): v for k, v in exp.items()}, {"offsets": offs, "colours": arr}, note="sort=%s" % sort)
             plt.close(fig)
-            return
+            return False
         if sort and arr != sorted(arr):
             acc.fail("density_scatter/not-sorted-by-density", case, sorted(arr), arr)
             plt.close(fig)
-            return
+            return False
         acc.ok(("scatter", sort, tuple(sorted(got.items()))), nontrivial=len(exp) > 1)
         plt.close(fig)
+    return True
 
 
 def _cmap(acc, case):
